@@ -229,6 +229,36 @@ def shrink(exe, block, tptr_sliced, budget=50):
     return assemble(best)
 
 
+def value_category_table(prog_text, obs_text):
+    """(projection kind x value category of the source view x rank class of the source) -> number of applications
+    in this run, counted from the programs that were actually run (corpus + generated).  Categories:
+    lvalue = named view (& overloads), const = const& overloads, xvalue = std::move(view) and prvalue = view()
+    (both select the && overloads)."""
+    names = {"l": "lvalue(&)", "c": "const(const&)", "r": "xvalue(&&,std::move)", "t": "prvalue(&&,temporary)"}
+    ranks = {}
+    for line in obs_text.splitlines():
+        m = S_RE.match(line)
+        if m:
+            ranks[(m.group(1), int(m.group(2)))] = int(m.group(5))
+    table = {}
+    for cid, block in core.split_cases(prog_text):
+        step = 0
+        for ln in block.splitlines():
+            t = ln.split()
+            if not t or t[0] not in ("op", "proj"):
+                continue
+            step += 1
+            if t[0] != "proj" or (cid, step) not in ranks or (cid, step - 1) not in ranks:
+                continue
+            k = t[1]
+            cat, kind = (k[0], k[2:]) if k[:2] in ("c_", "r_", "t_") else ("l", k)
+            cls = "D=1" if ranks[(cid, step - 1)] == 1 else "D>=2"
+            row = table.setdefault(kind, {})
+            key = "%s %s" % (names[cat], cls)
+            row[key] = row.get(key, 0) + 1
+    return {k: dict(sorted(v.items())) for k, v in sorted(table.items())}
+
+
 def distinct_nontrivial(prog_text):
     """distinct cases (hash of the text without probes) with a projection and >= 2 further view operations."""
     seen = set()
@@ -314,7 +344,7 @@ def vm_crosscheck(prog_text, obs_text, limit=200):
                     steps.append("inl " + _coq_op(t[1:]))
                     nstep += 1
                 elif t[0] == "proj":
-                    kind = t[1][2:] if t[1].startswith("c_") else t[1]
+                    kind = t[1][2:] if t[1][:2] in ("c_", "r_", "t_") else t[1]
                     ss, o = PROJ_COQ[kind]
                     steps += [x % int(t[2]) if "%d" in x else x for x in ss]
                     off = o
@@ -534,12 +564,14 @@ def run(tier, seed, replay=None):
                 "domain (dom_op of the model) holds; 1 or 2 projections (member_cast a/b/c, reinterpret_array_cast<U>() to "
                 "same-size / half-size / quarter-size U, reinterpret_array_cast<U>(n), static_array_cast, as_const, "
                 "const_array_cast, element_transformed by value / member pointer / reference-returning functor, "
-                "blas::real/imag/real_doubled); after each projection 0..%s further view operations; probes = all valid index "
+                "blas::real/imag/real_doubled), each called on a named view (35%%), through const& (20%%, where the library has "
+                "a const overload), on std::move(view) (25%%) or on the temporary view() (20%%); after each projection 0..%s further view operations; probes = all valid index "
                 "tuples when <= 12 else both corners + 6 random; 35%% mutate-after-view (laziness), 40%% write-through, 40%% "
                 "array construction; non-trivial = a projection and >= 2 view operations; distinct = hash of the non-probe lines"
                 % (extra[1], extra[3]),
         "samples": samples,
         "generator_distribution": dist,
+        "projection_value_category_table": value_category_table(prog_text, obs_text),
         "observation_lines_compared": obs_text.count("\n"),
         "address_probes": len(re.findall(r"^[PW] .* O=-?\d", obs_text, re.M)),
         "value_only_probes": len(re.findall(r"^[PW] .* O=- ", obs_text, re.M)),
